@@ -117,7 +117,34 @@ func runC04(c *Ctx) {
 			calls = append(calls, Event{"op": "Child", "src": 2, "dst": 3 + j, "idx": w32(cix)})
 		}
 		calls = append(calls, Event{"op": "Neuter", "src": 2, "dst": 10}, Event{"op": "Child", "src": 10, "dst": 11, "idx": w32(5)})
+		// the same key exported as a string and imported again derives the same children
+		calls = append(calls, Event{"op": "Reparse", "src": 2, "dst": 12}, Event{"op": "Child", "src": 12, "dst": 13, "idx": w32(1 << 31)},
+			Event{"op": "Child", "src": 12, "dst": 14, "idx": w32(5)}, Event{"op": "Child", "src": 13, "dst": 15, "idx": w32(1<<31 + 1)})
 		c.Run(calls)
+	}
+	// derivation is a function of the key's VALUE: it is not disturbed by what happened to the object or to its
+	// relatives before (printed, moved to another network, re-imported, a child or sibling erased)
+	for k := 0; k < c.Pick(24, 240); k++ {
+		net := 1 + k%len(nets)
+		calls := []Event{hdCfg(), {"op": "NewMaster", "dst": 1, "seed": ints(randBytes(r, 32)), "net": net},
+			{"op": "Child", "src": 1, "dst": 2, "idx": w32(1 << 31)}}
+		switch k % 4 {
+		case 0: // print, change the network, print again, derive
+			calls = append(calls, Event{"op": "SetNet", "src": 2, "net": 1 + (net+1)%len(nets)}, Event{"op": "Child", "src": 2, "dst": 3, "idx": w32(1)},
+				Event{"op": "Neuter", "src": 2, "dst": 4}, Event{"op": "SetNet", "src": 4, "net": net}, Event{"op": "Child", "src": 4, "dst": 5, "idx": w32(1)})
+		case 1: // erase one child, derive its siblings afterwards (private and public parent)
+			calls = append(calls, Event{"op": "Child", "src": 2, "dst": 3, "idx": w32(0)}, Event{"op": "Zero", "src": 3},
+				Event{"op": "Child", "src": 2, "dst": 4, "idx": w32(1)}, Event{"op": "Child", "src": 2, "dst": 5, "idx": w32(1<<31 + 1)},
+				Event{"op": "Neuter", "src": 2, "dst": 6}, Event{"op": "Child", "src": 6, "dst": 7, "idx": w32(0)}, Event{"op": "Zero", "src": 7},
+				Event{"op": "Child", "src": 6, "dst": 8, "idx": w32(1)})
+		case 2: // re-import, then derive from both objects
+			calls = append(calls, Event{"op": "Reparse", "src": 2, "dst": 3}, Event{"op": "Child", "src": 3, "dst": 4, "idx": w32(1<<31 + 2)},
+				Event{"op": "Child", "src": 2, "dst": 5, "idx": w32(1<<31 + 2)}, Event{"op": "Neuter", "src": 3, "dst": 6}, Event{"op": "Child", "src": 6, "dst": 7, "idx": w32(2)})
+		case 3: // erase the neutered twin, keep deriving from the private key, neuter again
+			calls = append(calls, Event{"op": "Neuter", "src": 2, "dst": 3}, Event{"op": "Zero", "src": 3}, Event{"op": "Neuter", "src": 2, "dst": 4},
+				Event{"op": "Child", "src": 4, "dst": 5, "idx": w32(3)}, Event{"op": "Child", "src": 2, "dst": 6, "idx": w32(3)})
+		}
+		c.Run(resolveReparse(calls))
 	}
 	// random paths on every net
 	for k := 0; k < c.Pick(20, 300); k++ {
@@ -199,6 +226,26 @@ func runC05(c *Ctx) {
 				q[by] = byte(r.Intn(256))
 				parse(b58WithChecksum(q))
 			}
+			// every single bit of the four checksum bytes themselves, and every single byte of them
+			full := refB58Decode(s)
+			for bit := 78 * 8; bit < 82*8 && len(full) == 82; bit++ {
+				q := append([]byte{}, full...)
+				q[bit/8] ^= 1 << uint(bit%8)
+				parse(base58Ref(q))
+			}
+			for by := 78; by < 82 && len(full) == 82; by++ {
+				q := append([]byte{}, full...)
+				q[by] ^= byte(1 + r.Intn(255))
+				parse(base58Ref(q))
+			}
+			// non-ASCII twins: a character replaced by the code point 0x100, 0x200, ... above it (a decoder that
+			// truncates runes to bytes reads the original character), and multi-byte characters
+			for t := 0; t < 6; t++ {
+				pos := r.Intn(len(s))
+				parse(s[:pos] + string(rune(int(s[pos])+0x100*(1+t%3))) + s[pos+1:])
+			}
+			parse(string(rune(int(s[0])+0x100)) + s[1:])
+			parse(s[:len(s)-1] + string(rune(int(s[len(s)-1])+0x100)))
 			// scalars at the range boundaries / public key bytes
 			one := make([]byte, 32)
 			one[31] = 1
